@@ -203,30 +203,3 @@ def c09_strata(V):
         for at in ([26, 0, 0], [26, 56, 0], [26, 0, 2]):
             out.append(["probe", "public", at, how])
     return out
-
-
-def gen_c09(seed, V, tier, index, strata=None, bias=None):
-    rng = random.Random(seed)
-    fams = [f for f in C09_FAMILIES if rng.random() < 0.5]
-    if not fams:
-        fams = [rng.choice(C09_FAMILIES)]
-    if tier == "thorough" and rng.random() < 0.15:
-        fams.append("extension")
-    cfg = {"families": fams}
-    n = 1
-    while n < 16 and rng.random() < 0.75:
-        n += 1
-    evs = []
-    if strata is not None and index < len(strata):
-        first = strata[index]
-        if isinstance(first, tuple):
-            first = gen_calc(rng, V, which=first[1])
-        evs.append(first)
-    while len(evs) < n:
-        e = gen_c09_event(rng, V, cfg)
-        evs.append(e)
-        # retry fault: re-issue the same operation straight away
-        if rng.random() < 0.12 and len(evs) < n:
-            evs.append(list(e))
-    return {"prop": "C09", "seed": seed, "index": index, "cfg": cfg,
-            "events": [[0, e] for e in evs]}
